@@ -852,7 +852,6 @@ Proof.
     destruct (view_bond_spec sel b b1 Hv) as [_ [_ [N1 [N2 _]]]]. unfold norm_bond. cbn [b_a1 b_a2]. auto.
 Qed.
 
-(* the whole molecule in another atom order is such a view: sel a permutation of 0 .. n-1 *)
 End View.
 
 (* ================================================================== Part C: the real vocabulary *)
